@@ -16,7 +16,10 @@ RULE = (
     "attribute + wildcard; time period; event; mqtt; webhook; @service; startup+shutdown; combination) and both "
     "subsystems; file engine: every sequence over {edit+reload, delete+reload, #-rename+reload, restore+reload, "
     "reload(name), occurrence, unload} on a script file, once as it is and once with definitions that are gone again before "
-    "the file has finished loading (a first f replaced by the real one, a function deleted right away). Oracle: a reference-count model of live function generations "
+    "the file has finished loading (a first f replaced by the real one, a function deleted right away); late engine: every "
+    "sequence over {edit+reload, delete+reload, restore, reload(name), event 'mk', occurrence} on a file whose load starts a task "
+    "that waits for 'mk' and then defines a trigger closure in its own context - the closure is active iff that context is the "
+    "loaded one at that moment and only until it is unloaded. Oracle: a reference-count model of live function generations "
     "gives, after every step (gc.collect + quiescence), the exact multiset of runs (none by a dead generation, "
     "startup/shutdown once per definition/removal), and the resource census (bus listeners, services, webhooks, MQTT "
     "subscriptions, pyscript subscription tables, tasks, timers) must equal the census of a fresh world in which "
@@ -569,6 +572,95 @@ def run_file(mixname, legacy, seq, ghost=False):
         w.close()
 
 
+# ---- a trigger function defined by a task that outlives its context ------------------------------------
+LATE_OPS = ["EDIT", "DELETE", "RESTORE", "RELOADNAME", "MK", "OCC"]
+
+
+def late_src(gen):
+    return (f"GEN = {gen}\nkeep = []\ndef setup():\n    task.wait_until(event_trigger='mk')\n    @event_trigger('ev1')\n"
+            "    def late(**kw):\n        EXT.append((GEN, kw.get('trigger_type')))\n    keep.append(late)\ntask.create(setup)\n")
+
+
+def run_late(legacy, seq):
+    """Each load of the file starts a task that waits for event 'mk' and then defines a trigger closure in ITS context.  The
+    closure is active iff that context is the loaded one when it is defined, and only until the context is unloaded."""
+    from mc.world import World
+
+    ext = []
+    w = World({"hello.py": late_src(1)}, legacy=legacy)
+    try:
+        w.settle()
+        w.g()["EXT"] = ext
+        gen, present = 1, True
+        ctxs = [1]          # generation of every context ever loaded, index = context id
+        current = 0         # index of the loaded context or None
+        pending = {0}
+        made = set()
+        trace = []
+        for i, op in enumerate(seq):
+            exp = []
+            if op in ("EDIT", "RESTORE", "RELOADNAME"):
+                if op == "EDIT":
+                    gen += 1
+                    w.write("hello.py" if present else "#hello.py", late_src(gen))
+                    if not present:
+                        continue
+                    w.reload()
+                elif op == "RESTORE":
+                    if present:
+                        continue
+                    w.write("hello.py", late_src(gen))
+                    present = True
+                    w.reload()
+                else:
+                    if not present:
+                        continue
+                    w.reload("file.hello")
+                w.settle()
+                if w.g() is None:
+                    return {"kind": "file-not-loaded", "step": i, "op": op}, trace
+                w.g()["EXT"] = ext
+                ctxs.append(gen)
+                current = len(ctxs) - 1
+                pending.add(current)
+            elif op == "DELETE":
+                if not present:
+                    continue
+                w.remove("hello.py")
+                present = False
+                w.reload()
+                current = None
+            elif op == "MK":
+                w.fire("mk", {})
+                w.settle()
+                made |= pending
+                pending = set()
+            elif op == "OCC":
+                n0 = len(ext)
+                w.fire("ev1", {})
+                w.settle()
+                if current is not None and current in made:
+                    exp = [(ctxs[current], "event")]
+                got = list(ext[n0:])
+                trace.append((op, got))
+                if sorted(got) != sorted(exp):
+                    kind = "closure-of-unloaded-context-ran" if len(got) > len(exp) else "closure-of-loaded-context-silent"
+                    return {"kind": kind, "step": i, "op": op, "expected": exp, "observed": got}, trace
+            w.collect()
+            cen = w.census()
+            active = current is not None and current in made
+            have = cen["listeners"].get("ev1", 0)
+            if (have > 0) != active or have > 1:
+                return {"kind": "listener-of-late-closure", "step": i, "op": op, "expected": 1 if active else 0, "observed": have}, trace
+            if op != "OCC":
+                trace.append((op, [("listeners", have)]))
+        if w.errors:
+            return {"kind": "loop-exception", "detail": repr(w.errors[0])[:300]}, trace
+        return None, trace
+    finally:
+        w.close()
+
+
 def harvest_before_reload(w):
     """Runs recorded in the context that is about to be discarded."""
     g = w.g()
@@ -616,6 +708,8 @@ def plan(tier, seed):
     for mixname in ("state1", "event", "updown", "combo", "service"):
         for legacy in (False, True):
             shards.append(("file", mixname, legacy, depth))
+    for legacy in (False, True):
+        shards.append(("late", legacy, 5 if tier == "thorough" else 4))
     # the same file histories with definitions that are replaced / deleted while the file is still loading
     for mixname in ("state1", "event", "updown", "combo", "service", "time", "mqtt", "webhook"):
         if mixname in MIXES:
@@ -638,6 +732,13 @@ def run_shard(shard):
             if skipped:
                 continue
             record(res, "session", mixname, legacy, seq, fail, trace, m)
+    elif kind == "late":
+        _, legacy, depth = shard
+        for seq in EX.sequences(LATE_OPS, depth):
+            if "MK" not in seq or "OCC" not in seq:
+                continue
+            fail, trace = run_late(legacy, seq)
+            record(res, "late", "late", legacy, seq, fail, trace, None)
     elif kind == "webhook":
         legacy = shard[1]
         for seq in EX.sequences(["DEF", "DEL", "OCC", "ALIAS", "DELG"], 4):
@@ -666,6 +767,9 @@ def record(res, engine, mixname, legacy, seq, fail, trace, m):
 
 
 def replay(case):
+    if case["engine"] == "late":
+        fail, trace = run_late(case["legacy"], tuple(case["seq"]))
+        return {"ok": fail is None, "failure": fail, "trace": [list(t) for t in trace]}
     if case["engine"] == "session":
         fail, trace, m, skipped = run_session(case["mix"], case["legacy"], tuple(case["seq"]))
     else:
